@@ -19,7 +19,7 @@ from vlib import log
 MODES_INFO = {
     "hall": "every one of the 530 Hall settings: own conventional cell and a re-described cell (random unimodular re-basing with entries up to 6, origin shift; optionally rigid rotation, atom permutation, added lattice vectors), Spglib and Standard conventions alternating, symprec in {1e-5..1e-2}, both angle-tolerance modes",
     "super": "supercells: random HNFs of index 2..4 (quick) / 2..6 (thorough) and of index 5..12, plus the skew family [[1,0,0],[1,1,0],[0,2,k]], of crystals from random Hall settings, optionally re-based/shifted/rotated",
-    "noise": "(half of the crystals carry a third species on a special position) undistorted crystals and noisy twins (atoms displaced uniformly in a ball of radius 5% symprec, symmetric lattice strain of the same relative size) at the same symprec",
+    "noise": "(half of the crystals carry a third species on a special position) undistorted crystals (every fourth as a supercell of index 2..4) and noisy twins (atoms displaced uniformly in a ball of radius 5% symprec, symmetric lattice strain of the same relative size) at the same symprec",
     "pseudo": "pseudo-symmetric crystals: a crystal scaled to axes >= 8..12 A whose one axis is stretched by between 4.5 x (axis / shortest axis) and 0.9 x axis length times symprec, fractional coordinates kept (operations moving that axis map atoms onto atoms exactly but change lengths by more than the tolerance); the reported group is an unknown subgroup, only truth-independent clauses (C01) are judged",
     "hallreq": "Setting::HallNumber(h) for every h in 1..=530 on a crystal generated in that setting (own and re-described cell), on a crystal of another type, and for out-of-range Hall numbers",
     "lowsym": "many cheap low-symmetry cases: Hall 1/2 (triclinic) and monoclinic settings, half with an extra species on a special position, strongly re-based + shifted (+ supercells of index 2..5)",
@@ -359,7 +359,9 @@ def run_property(pid, tier, seed, modes, props, level_text_keys, nontrivial, ext
     return run.finish()
 
 
-def replay(pid, path):
+def replay(pid, path, extra=None):
+    """`extra(per_mode)`: the check's own additional clauses (same function as given to run_property), re-evaluated on the
+    regenerated case."""
     d = json.load(open(path))
     ok, err = vlib.build_harness()
     vlib.lake_build(["moyo_model"])
@@ -372,6 +374,10 @@ def replay(pid, path):
     print("oracle:", a[:2000])
     p = parse_answer(a)
     mine = [f for f in (p["fails"] if p else ["unparsed"]) if f.startswith(pid + ":") or f.startswith("C08:")]
+    if extra and p:
+        for _, _, why in extra({d["mode"]: ([line], [a])}):
+            print("check clause:", why[:500])
+            mine.append(why)
     if mine:
         print(f"VIOLATION property={pid} replay={path}")
         return 1
